@@ -802,4 +802,113 @@ theorem monotoneOk_model (ms : List Metric) (t : List Cell) : monotoneOk 0 (buil
     exact cellSummaries_monotone ms _ _ _ e he
   · cases he
 
+/-! ### the option `remove_empties`: `buildPlotDataOpt` -/
+
+theorem nonEmpty_cellSummariesAll (ms : List Metric) (c : Cell) (p n : Option Cell) :
+    nonEmpty (cellSummariesAll ms c p n) = cellSummaries ms c p n := by
+  unfold nonEmpty cellSummariesAll cellSummaries
+  rw [List.filterMap_map]
+  congr 1
+  funext m
+  simp only [Function.comp]
+  cases safeApplyMetric m c p n <;> rfl
+
+theorem fieldSummaries_eq_map (ms : List Metric) (t : List Cell) :
+    fieldSummaries ms t = (fieldSummariesAll ms t).map fun e => (e.1, nonEmpty e.2) := by
+  unfold fieldSummaries fieldSummariesAll
+  rw [List.map_flatMap]
+  congr 1
+  funext kr
+  rw [List.map_map]
+  apply List.map_congr_left
+  intro tr _
+  simp only [Function.comp, nonEmpty_cellSummariesAll]
+
+theorem lookupLast_map (c : Cell) (l : List (Cell × List Entry)) :
+    lookupLast c (l.map fun e => (e.1, nonEmpty e.2)) = nonEmpty (lookupLastAll c l) := by
+  unfold lookupLast lookupLastAll
+  rw [List.filter_map, List.getLast?_map]
+  simp only [Function.comp_def]
+  cases (l.filter fun e => cellEq e.1 c).getLast? with
+  | none => rfl
+  | some e => rfl
+
+theorem nonEmpty_keep (b : Bool) (l : List Entry) : nonEmpty (keepEntries b l) = nonEmpty l := by
+  cases b
+  · rfl
+  · simp only [keepEntries, if_true, nonEmpty]
+    induction l with
+    | nil => rfl
+    | cons e l ih =>
+      rcases e with ⟨k, _ | s⟩
+      · simpa [List.filter_cons] using ih
+      · simp [ih]
+
+/-- for BOTH option values the coordinates, fields and non-empty summaries are those of the default call -/
+theorem base_eq (b : Bool) (ms : List Metric) (t : List Cell) :
+    (buildPlotDataOpt b ms t).map (·.base) = buildPlotData ms t := by
+  unfold buildPlotDataOpt buildPlotData
+  rw [List.map_map]
+  apply List.map_congr_left
+  intro c _
+  simp only [Function.comp, nonEmpty_keep, fieldSummaries_eq_map, lookupLast_map]
+
+theorem mem_fieldSummariesAll {ms : List Metric} {t : List Cell} {e : Cell × List Entry}
+    (he : e ∈ fieldSummariesAll ms t) : e.2.map (·.1) = ms.map (toSnake ·.name) := by
+  unfold fieldSummariesAll at he
+  obtain ⟨kr, _, he⟩ := List.mem_flatMap.mp he
+  obtain ⟨tr, _, rfl⟩ := List.mem_map.mp he
+  simp [cellSummariesAll, Function.comp_def]
+
+/-- every cell of a valid triangle has its slot list: one entry per metric of the table, in table order -/
+theorem own_entries_names {t : List Cell} (hv : ValidT t) (ms : List Metric) {c : Cell} (hc : c ∈ t) :
+    (lookupLastAll c (fieldSummariesAll ms t)).map (·.1) = ms.map (toSnake ·.name) := by
+  obtain ⟨kr, hkr, _, hcrow⟩ := row_cover hc
+  have hfst : c ∈ (rowTriples kr.2).map (·.1) := by rw [rowTriples_eq, triplesAux_fst]; exact hcrow
+  obtain ⟨tr, htr, htr1⟩ := List.mem_map.mp hfst
+  have hmem : (tr.1, cellSummariesAll ms tr.1 tr.2.1 tr.2.2) ∈
+      (fieldSummariesAll ms t).filter (fun e => cellEq e.1 c) := by
+    apply List.mem_filter.mpr
+    constructor
+    · unfold fieldSummariesAll
+      exact List.mem_flatMap.mpr ⟨kr, hkr, List.mem_map.mpr ⟨tr, htr, rfl⟩⟩
+    · simp only [htr1]; exact cellEq_refl (hv.2 c hc)
+  unfold lookupLastAll
+  cases hl : ((fieldSummariesAll ms t).filter fun e => cellEq e.1 c).getLast? with
+  | none =>
+    rw [List.getLast?_eq_none_iff] at hl
+    rw [hl] at hmem; cases hmem
+  | some e =>
+    have he := List.mem_of_getLast? hl
+    exact mem_fieldSummariesAll (List.mem_filter.mp he).1
+
+theorem sameSet_self (a : List String) : sameSet a a = true := by
+  simp [sameSet]
+
+theorem entriesOk_model {t : List Cell} (hv : ValidT t) (b : Bool) :
+    (buildPlotDataOpt b gms t).all (entriesOk b) = true := by
+  unfold buildPlotDataOpt
+  rw [List.all_map, List.all_eq_true]
+  intro c hc
+  simp only [Function.comp, entriesOk, mkRecord, beq_self_eq_true, Bool.true_and]
+  cases b
+  · have hn := own_entries_names hv gms hc
+    have hnames : gms.map (toSnake ·.name) = table.map (·.1) := by decide +kernel
+    simp only [keepEntries, Bool.false_eq_true, if_false, Bool.and_eq_true]
+    rw [hn, hnames]
+    refine ⟨sameSet_self _, ?_⟩
+    have hl := congrArg List.length hn
+    rw [List.length_map, hnames, List.length_map] at hl
+    simp [hl]
+  · simp only [keepEntries, if_true, List.all_filter, List.all_eq_true]
+    intro e _
+    cases e.2 <;> simp
+
+theorem tooltipOk_model (b : Bool) (ms : List Metric) (t : List Cell) :
+    (buildPlotDataOpt b ms t).all tooltipOk = true := by
+  unfold buildPlotDataOpt
+  rw [List.all_map, List.all_eq_true]
+  intro c _
+  simp only [Function.comp, tooltipOk, tooltipNames, mkRecord, beq_self_eq_true]
+
 end Bermuda.Plot
